@@ -78,6 +78,34 @@ const TPLS: &[Tpl] = &[
     Tpl { name: "exact", site: Site::Exact, text: "MATCH (a)-[*{}]->(b) RETURN a", at: Where::Top },
     Tpl { name: "exact-typed", site: Site::Exact, text: "MATCH (a)-[r:T|U*{}]->(b) RETURN a", at: Where::Top },
     Tpl { name: "exact-props", site: Site::Exact, text: "MATCH (a)-[*{} {k: 1}]->(b) RETURN a", at: Where::Top },
+    // the same sites in other places of a statement
+    Tpl { name: "min-second-segment", site: Site::Min, text: "MATCH (a)-[:T]->(b)-[*{}..3]->(c) RETURN a", at: Where::Top },
+    Tpl { name: "min-undirected", site: Site::Min, text: "MATCH (a)-[*{}..]-(b) RETURN a", at: Where::Top },
+    Tpl { name: "min-second-match", site: Site::Min, text: "MATCH (x) MATCH (a)-[*{}..3]->(b) RETURN a", at: Where::Top },
+    Tpl { name: "max-optional", site: Site::Max, text: "OPTIONAL MATCH (a)-[*..{}]->(b) RETURN a", at: Where::Top },
+    Tpl { name: "max-left", site: Site::Max, text: "MATCH (a)<-[r:T|U*2..{}]-(b) RETURN a", at: Where::Top },
+    Tpl { name: "max-second-path", site: Site::Max, text: "MATCH (x)-->(y), (a)-[*1..{}]->(b) RETURN a", at: Where::Top },
+    Tpl { name: "max-shortest", site: Site::Max, text: "MATCH p = shortestPath((a)-[*..{}]-(b)) RETURN p", at: Where::Top },
+    Tpl { name: "exact-second-segment", site: Site::Exact, text: "MATCH (a)-->(b)<-[*{}]-(c) RETURN a", at: Where::Top },
+    Tpl { name: "exact-both-bounds", site: Site::Exact, text: "MATCH (a)-[*{}..{}]->(b) RETURN a", at: Where::Top },
+    Tpl { name: "exact-lowercase", site: Site::Exact, text: "match (a)-[*{}]->(b) return a", at: Where::Top },
+    Tpl { name: "exact-create-after", site: Site::Exact, text: "MATCH (a)-[*{}]->(b) CREATE (a)-[:N]->(b)", at: Where::Top },
+    Tpl { name: "limit-after-skip", site: Site::Limit, text: "RETURN 1 AS x SKIP 1 LIMIT {}", at: Where::Top },
+    Tpl { name: "limit-after-order", site: Site::Limit, text: "MATCH (n) RETURN n ORDER BY n.k DESC LIMIT {}", at: Where::Top },
+    Tpl { name: "skip-after-order", site: Site::Skip, text: "MATCH (n) RETURN n.k AS k ORDER BY k SKIP {} LIMIT 3", at: Where::Top },
+    Tpl { name: "skip-unwind", site: Site::Skip, text: "UNWIND [1,2] AS x RETURN x SKIP {}", at: Where::Top },
+    Tpl { name: "limit-union-first", site: Site::Limit, text: "RETURN 1 AS x LIMIT {} UNION RETURN 2 AS x", at: Where::Top },
+    Tpl { name: "skip-union", site: Site::Skip, text: "MATCH (n) RETURN n.k AS x UNION ALL MATCH (n) RETURN n.k AS x SKIP {}", at: Where::Union },
+    Tpl { name: "limit-with-where", site: Site::Limit, text: "MATCH (n) WITH n ORDER BY n.k LIMIT {} WHERE n.k > 0 RETURN n", at: Where::WithInner },
+    Tpl { name: "limit-with-skip", site: Site::Limit, text: "WITH 1 AS x SKIP 0 LIMIT {} RETURN x", at: Where::WithInner },
+    Tpl { name: "limit-explain", site: Site::Limit, text: "EXPLAIN MATCH (n) RETURN n LIMIT {}", at: Where::Top },
+    Tpl { name: "limit-semicolon", site: Site::Limit, text: "RETURN 1 AS x LIMIT {};", at: Where::Top },
+    Tpl { name: "limit-lowercase", site: Site::Limit, text: "return 1 as x limit {}", at: Where::Top },
+    Tpl { name: "limit-newline", site: Site::Limit, text: "RETURN 1 AS x\nLIMIT\n{}", at: Where::Top },
+    Tpl { name: "limit-comment", site: Site::Limit, text: "RETURN 1 AS x LIMIT /* c */ {} // end", at: Where::Top },
+    Tpl { name: "limit-distinct", site: Site::Limit, text: "MATCH (n) RETURN DISTINCT n.k AS k LIMIT {}", at: Where::Top },
+    Tpl { name: "limit-call-where", site: Site::Limit, text: "CALL db.labels() YIELD label WHERE label <> 'x' RETURN label ORDER BY label LIMIT {}", at: Where::Top },
+    Tpl { name: "limit-match-create", site: Site::Limit, text: "MATCH (n) CREATE (m:L) RETURN m LIMIT {}", at: Where::Top },
     Tpl { name: "limit-return", site: Site::Limit, text: "RETURN 1 AS x LIMIT {}", at: Where::Top },
     Tpl { name: "skip-return", site: Site::Skip, text: "RETURN 1 AS x SKIP {}", at: Where::Top },
     Tpl { name: "skip-return-limit", site: Site::Skip, text: "RETURN 1 AS x SKIP {} LIMIT 2", at: Where::Top },
@@ -101,13 +129,29 @@ const TPLS: &[Tpl] = &[
     Tpl { name: "int-unwind", site: Site::Int, text: "UNWIND [{}] AS v RETURN v AS x", at: Where::Top },
     Tpl { name: "int-create-prop", site: Site::Int, text: "CREATE (n:L {k: {}}) RETURN n.k AS x", at: Where::Top },
     Tpl { name: "int-binary", site: Site::Int, text: "RETURN 0 + {} AS x", at: Where::Top },
+    Tpl { name: "int-paren", site: Site::Int, text: "RETURN ({}) AS x", at: Where::Top },
+    Tpl { name: "int-first-operand", site: Site::Int, text: "RETURN {} + 0 AS x", at: Where::Top },
+    Tpl { name: "int-case", site: Site::Int, text: "RETURN CASE WHEN true THEN {} ELSE 0 END AS x", at: Where::Top },
+    Tpl { name: "int-coalesce", site: Site::Int, text: "RETURN coalesce(null, {}) AS x", at: Where::Top },
+    Tpl { name: "int-comprehension", site: Site::Int, text: "RETURN [v IN [{}] | v][0] AS x", at: Where::Top },
+    Tpl { name: "int-with", site: Site::Int, text: "WITH {} AS v RETURN v AS x", at: Where::Top },
+    Tpl { name: "int-set", site: Site::Int, text: "CREATE (n:L) SET n.k = {} RETURN n.k AS x", at: Where::Top },
+    Tpl { name: "int-merge-prop", site: Site::Int, text: "MERGE (n:L {k: {}}) RETURN n.k AS x", at: Where::Top },
+    Tpl { name: "int-nested-map", site: Site::Int, text: "WITH {a: {b: [0, {}]}} AS m RETURN m.a.b[1] AS x", at: Where::Top },
+    Tpl { name: "int-lowercase", site: Site::Int, text: "return {} as x", at: Where::Top },
+    Tpl { name: "int-union", site: Site::Int, text: "RETURN {} AS x UNION RETURN {} AS x", at: Where::Top },
+    Tpl { name: "float-binary", site: Site::Float, text: "RETURN 0.0 + {} AS x", at: Where::Top },
+    Tpl { name: "float-map", site: Site::Float, text: "WITH {k: {}} AS m RETURN m.k AS x", at: Where::Top },
+    Tpl { name: "float-set", site: Site::Float, text: "CREATE (n:L) SET n.k = {} RETURN n.k AS x", at: Where::Top },
+    Tpl { name: "float-unwind", site: Site::Float, text: "UNWIND [{}] AS v RETURN v AS x", at: Where::Top },
+    Tpl { name: "float-case", site: Site::Float, text: "RETURN CASE WHEN true THEN {} ELSE 0.0 END AS x", at: Where::Top },
     Tpl { name: "float-return", site: Site::Float, text: "RETURN {} AS x", at: Where::Top },
     Tpl { name: "float-list", site: Site::Float, text: "RETURN [{}, 1.5][0] AS x", at: Where::Top },
     Tpl { name: "float-create-prop", site: Site::Float, text: "CREATE (n:L {k: {}}) RETURN n.k AS x", at: Where::Top },
 ];
 
 fn render(t: &Tpl, num: &str) -> String {
-    t.text.replacen("{}", num, 1)
+    t.text.replace("\\n", "\n").replace("{}", num)
 }
 
 /// the outcome at the site, in the driver's vocabulary
@@ -126,10 +170,10 @@ fn observe(t: &Tpl, q: &str) -> String {
         Site::Min | Site::Max | Site::Exact => {
             let len = ast
                 .match_clauses
-                .first()
-                .and_then(|m| m.pattern.paths.first())
-                .and_then(|p| p.segments.first())
-                .and_then(|s| s.edge.length.clone());
+                .iter()
+                .flat_map(|m| m.pattern.paths.iter())
+                .flat_map(|p| p.segments.iter())
+                .find_map(|s| s.edge.length.clone());
             match (t.site, len) {
                 (Site::Min, Some(l)) => opt(l.min),
                 (Site::Max, Some(l)) => opt(l.max),
